@@ -39,7 +39,7 @@ def cases(tier, seed):
     E = env.load()
     rnd = random.Random(f"C11-{seed}")
     out = []
-    per_zone = 6 if tier == "quick" else 10
+    per_zone = 6 if tier == "quick" else 16
     for z in zones_for(tier, E):
         tz = E.pytz.timezone(z)
         tr = transitions(tz)
@@ -54,7 +54,7 @@ def cases(tier, seed):
 
 
 def requirements(tier):
-    return {"min_counters": {"conversions_checked": 2000 if tier == "quick" else 40000, "pattern_level_checked": 2000, "ambiguous_hours": 200,
+    return {"min_counters": {"conversions_checked": 2000 if tier == "quick" else 30000, "pattern_level_checked": 2000, "ambiguous_hours": 200,
                              "nonexistent_hours": 200, "ends_near_transition": 500, "non_whole_hour_offset_zone": 100},
             "required_classes": ["gap", "overlap", "half_hour_zone", "ends_inside_gap_neighbourhood", "long_series"]}
 
